@@ -98,6 +98,7 @@ def rule_r2(ctx: Ctx) -> None:
             ctx.accept("C15.R2", f.loc(), ALLOW_SIZE[f.fullname])
             continue
         yc = YieldCounter(f, kname, pname)
+        yc.prog = prog
         from ..inline import make_inline_hook
         ih = make_inline_hook(prog, f.cls, f.module, skip=("apply", "iterate", "initialize", "compute_ranges"))
         yc.hooks.append(ih)
@@ -280,6 +281,7 @@ def check_parallel_iterate(ctx: Ctx, f: FunctionInfo, cls=None) -> None:
     s_name, e_name = (x.id for x in loop.target.elts[0].elts)
     # every range is served: loop over zip(ranges, self.steps) with equal lengths asserted or by construction
     yc = YieldCounter(f, k, None)
+    yc.prog = ctx.prog
     fa = Facts()
     S, E = Lin.sym("start"), Lin.sym("end")
     fa.ints |= {"start", "end"}
